@@ -21,8 +21,12 @@ PROPS = {
                      "symbolic f64 inputs (all bit patterns). SingleObjective harnesses are loop-free (complete); "
                      "MultiObjective harnesses are complete per vector length (lengths listed as bounds)."),
         verus=[],
-        kani=[dict(files=["contracts/C09/c09.rs"])],
-        min_obligations={"quick": 15, "thorough": 20},
+        kani=[dict(files=["contracts/C09/c09.rs", "contracts/C09/c09_contracts.rs"],
+                   annotations=[dict(file="src/problems/objective/single.rs", impl="impl TryFrom<f64> for SingleObjective", fn="try_from", attrs=[
+                       "kani::ensures(|r: &Result<SingleObjective, IllegalObjective>| r.is_err() == (value.is_nan() || value == f64::NEG_INFINITY))",
+                       "kani::ensures(|r: &Result<SingleObjective, IllegalObjective>| match r { Ok(v) => v.value().to_bits() == value.to_bits(), Err(_) => true })",
+                   ])])],
+        min_obligations={"quick": 16, "thorough": 21},
         assumptions=["CBMC's IEEE-754 float model", "derive_more operator derives compiled as in the real build"],
     ),
 }
@@ -167,7 +171,8 @@ PROPS["C12"] = dict(
     level="other",
     explanation=("Verus: the replacement() driver extracted verbatim, verified against the C04 Populations contracts and an ARBITRARY "
                  "Replacement operator (unbounded). Kani: Hoare triples on the real replace kernels at enumerated sizes."),
-    verus=[dict(name="driver", template="contracts/C12/driver.vrs", expect=["replacement"])],
+    verus=[dict(name="driver", template="contracts/C12/driver.vrs", expect=["replacement"]),
+           dict(name="mu_plus_lambda", template="contracts/C12/mu_plus_lambda.vrs", expect=["<MuPlusLambda as Replacement<P>>::replace"])],
     kani=[dict(files=["contracts/C12/c12.rs"])],
     min_obligations={"quick": 20, "thorough": 22},
     uncovered=["KeepBetterAtIndex (ensure! => Kani ICE; iterator chain => Verus rejects)"],
@@ -188,10 +193,11 @@ PROPS["C10"] = dict(
                  "and verified against arbitrary operands, lenses and equality measures (unbounded). Kani: equality checkers."),
     verus=[dict(name="logical", template="contracts/C10/logical.vrs",
                 expect=["<Not<P> as Condition<P>>::evaluate", "impl<P, L> Condition<P> for EveryN<L>::evaluate"]),
-           dict(name="changeof", template="contracts/C10/changeof.vrs", expect=["impl<P, L> Condition<P> for ChangeOf<L>::evaluate"])],
+           dict(name="changeof", template="contracts/C10/changeof.vrs", expect=["impl<P, L> Condition<P> for ChangeOf<L>::evaluate"]),
+           dict(name="less_than_n", template="contracts/C10/less_than_n.vrs", expect=["impl<P, L> Condition<P> for LessThanN<L>::evaluate"])],
     kani=[dict(files=["contracts/C10/c10.rs"])],
     min_obligations={"quick": 14, "thorough": 14},
-    uncovered=["And/Or::evaluate (closure capturing &mut state: Verus rejects; Kani does not terminate)", "LessThanN (generic float-like target)",
+    uncovered=["And/Or::evaluate (closure capturing &mut state: Verus rejects; Kani does not terminate)", "the VALUE of the progress written by LessThanN (float division is uninterpreted)",
                "OptimumReached", "RandomChance (probability)", "'exactly n passes' composition theorem"],
 )
 
@@ -218,10 +224,10 @@ PROPS["C15"] = dict(
                  "arbitrary triggers/extractors and the abstract form of holding's contract (C02). Kani: Step::push / CompressedLog."),
     verus=[dict(name="logging", template="contracts/C15/logging.vrs",
                 expect=["ExtractionRule<P>::execute", "LogConfig<P>::execute", "<Logger as Component<P>>::execute"])],
-    kani=[dict(files=["contracts/C15/c15.rs"], inject=[dict(file="contracts/C15/c15_compressed.rs", into="src/logging/log.rs")],
-               map_shim=True, map_shim_files=["src/logging/log.rs"])],
-    min_obligations={"quick": 5, "thorough": 6},
-    uncovered=["JSON/CBOR/RON serialisation and decoding", "every template serialises / distinct configurations serialise differently"],
+    kani=[dict(files=["contracts/C15/c15.rs"])],
+    min_obligations={"quick": 4, "thorough": 4},
+    uncovered=["compressed export kernel CompressedLog::from (CBMC does not finish even on one concrete two-step log: 10 min / 22 GB; Verus rejects its &mut-capturing closure) - harness kept in contracts/attic/",
+               "JSON/CBOR/RON serialisation and decoding", "every template serialises / distinct configurations serialise differently"],
 )
 
 REG_FILES = ["src/state/registry/mod.rs", "src/state/registry/entry.rs", "src/state/registry/multi.rs"]
